@@ -164,6 +164,10 @@ func renamePrefixes(e Expr, m map[string]string) Expr {
 			if n, ok := m[c.Test.Prefix]; ok && (c.Test.Kind == "qn" || c.Test.Kind == "nsany") {
 				c.Test.Prefix = n
 			}
+			// namespace::NAME resolves NAME through the bindings (the library's URI rule): it is a prefix too
+			if n, ok := m[c.Test.Local]; ok && c.Axis == "namespace" && c.Test.Kind == "name" {
+				c.Test.Local = n
+			}
 			c.Q = rq(c.Q)
 			c.Preds = nil
 			for _, p := range s.Preds {
@@ -234,7 +238,13 @@ func famC11(rn *Runner) {
 					t := pick(rn.R, []NodeTest{{Kind: "qn", Prefix: pick(rn.R, g.Prefixes), Local: pick(rn.R, g.Locals)}, {Kind: "nsany", Prefix: pick(rn.R, g.Prefixes)},
 						{Kind: "localany", Local: pick(rn.R, g.Locals)}, {Kind: "name", Local: pick(rn.R, g.Locals)}})
 					ax := pick(rn.R, []string{"child", "attribute", "child", "self", "ancestor", "following-sibling"})
-					ss = append(ss, &Stp{Axis: ax, Test: t, Abbrev: rn.R.Bool()})
+					if rn.R.Chance(1, 5) {
+						// namespace::NAME: NAME is resolved through the QUERY's bindings (the library's URI rule) - the prefixes the
+						// document happens to use, the implicit xml node included, do not enter into it
+						ax = "namespace"
+						t = NodeTest{Kind: "name", Local: pick(rn.R, []string{"p", "q", "r", "p2", "xml", "w", "zz", "child", "self"})}
+					}
+					ss = append(ss, &Stp{Axis: ax, Test: t, Abbrev: rn.R.Bool() && ax != "namespace"})
 					e = &EPath{Abs: true, Steps: ss}
 				case 3:
 					e = bin(pick(rn.R, []string{"=", "+", "or", "|"}), g.bindingRef(1), g.anyArg(1))
@@ -414,7 +424,7 @@ func famC12(rn *Runner) {
 			rn.scalar(d, env, start, call(pick(rn.R, []string{"name", "local-name", "namespace-uri", "count"}), ns), "name-functions", "function of a node-set argument", true)
 			// P/f() for node functions, lang from several context nodes
 			if rn.R.Chance(1, 4) {
-				rn.scalar(d, env, start, call("count", pick(rn.R, []Expr{num("1"), lit("a"), call("true")})), "count-non-nodeset", "count of a non-node-set is an error", true)
+				rn.scalar(d, env, start, call("count", pick(rn.R, []Expr{num("1"), lit("a"), call("true"), lit(""), call("false"), num("0"), bin("div", num("0"), num("0")), call("string", &EPath{Steps: []*Stp{{Axis: "child", Test: NodeTest{Kind: "name", Local: "nope"}}}}), bin("=", lit("a"), lit("b"))})), "count-non-nodeset", "count of a non-node-set is an error", true)
 			}
 		}
 		rn.DropDoc(d)
